@@ -649,12 +649,22 @@ func (e *Engine) scenario(s *State, cm *CachedModel, ob string) *Scenario {
 		for i, a := range addrs {
 			idxOf[a.strT.ID] = i
 		}
+		// string variables the path condition equates with a concatenation are spelled out first
+		eqs := map[int]*Term{}
+		for _, a := range s.pcTerms() {
+			if x, t, ok := constEqOf(a); ok && x.Sort == SStr {
+				if _, dup := eqs[x.ID]; !dup {
+					eqs[x.ID] = t
+				}
+			}
+		}
+		smemo := map[int]*Term{}
 		for _, app := range ufApps(s.pcTerms(), "strlt") {
 			v, ok := cm.Eval(app)
 			if !ok || v.B == nil {
 				continue
 			}
-			pa, pb := parts(app.Args[0]), parts(app.Args[1])
+			pa, pb := parts(substTerm(app.Args[0], eqs, smemo)), parts(substTerm(app.Args[1], eqs, smemo))
 			k := 0
 			for k < len(pa) && k < len(pb) && pa[k] == pb[k] {
 				k++
@@ -776,8 +786,10 @@ func (e *Engine) scenario(s *State, cm *CachedModel, ob string) *Scenario {
 	}
 	// inputs the model tied to a hash value (file-tree owner ids, access ids, ...): recomputed with the
 	// real hash functions from the final input values instead of being copied from the abstract model
+	var renv *realEnv
 	{
 		env := &realEnv{vars: map[int]MVal{}, memo: map[int]MVal{}}
+		renv = env
 		for _, en := range s.W.Nondet {
 			if en.T.Op != "var" {
 				continue
@@ -928,6 +940,13 @@ func (e *Engine) scenario(s *State, cm *CachedModel, ob string) *Scenario {
 			k1 := subBytes(*v.S)
 			if r, ok := modReal[k1]; ok {
 				k1 = r
+			}
+			// hash-derived accounts (gauge accounts, ...): the real digest of the final inputs
+			if renv != nil && len(hashApps([]*Term{en.T})) > 0 {
+				renv.memo = map[int]MVal{}
+				if rv, ok := renv.eval(en.T); ok && rv.S != nil {
+					k1 = *rv.S
+				}
 			}
 			cur.K1Hex = fmt.Sprintf("%x", k1)
 		case parts[0] == "tbl" && strings.HasSuffix(en.Tag, "arg1") && cur != nil && v.S != nil:
